@@ -208,7 +208,7 @@ pub enum Val {
     Unit,
     Int { signed: bool, bits: Vec<Bit> },
     /// unsigned interval, used only for the out-of-range class of an index parameter
-    Range { lo: u128, hi: u128, w: u16 },
+    Range { id: u32, lo: u128, hi: u128, w: u16 },
     Struct(Vec<Val>),
     Enum { variant: u32, fields: Vec<Val> },
     Array(Vec<Val>),
@@ -314,6 +314,13 @@ pub struct State<'tcx> {
     pub mayfail: Vec<String>,
     pub assume: Vec<((u32, u16), bool)>,
     pub ncalls: usize,
+    /// the path went through a fork whose condition the analysis could not express (unknown bits):
+    /// its outcomes are possibilities, not facts
+    pub imprecise: bool,
+    /// current bounds of every interval-valued input (refined by branches on comparisons with constants)
+    pub ranges: Vec<(u128, u128)>,
+    /// predicate symbols: sym id -> (range id, c) meaning "range < c"
+    pub preds: Vec<(u32, u32, u128)>,
 }
 
 pub struct Outcome {
@@ -550,7 +557,10 @@ impl<'tcx> Interp<'tcx> {
                 ("sg", if *signed { "1".into() } else { "0".into() }),
                 ("m", esc(&Self::render_bits(st, bits))),
             ]),
-            Val::Range { lo, hi, w } => obj(&[("r", arr(&[esc(&lo.to_string()), esc(&hi.to_string())])), ("w", w.to_string())]),
+            Val::Range { id, w, .. } => {
+                let (lo, hi) = st.ranges.get(*id as usize).copied().unwrap_or((0, 0));
+                obj(&[("r", arr(&[esc(&lo.to_string()), esc(&hi.to_string())])), ("w", w.to_string())])
+            }
             Val::Struct(f) => obj(&[("s", arr(&f.iter().map(|x| self.render(st, x, depth + 1)).collect::<Vec<_>>()))]),
             Val::Enum { variant, fields } => obj(&[
                 ("v", variant.to_string()),
@@ -632,6 +642,14 @@ impl<'tcx> Interp<'tcx> {
                             Some(i) => path.push(i as usize),
                             None => return PlaceRes::Unknown,
                         },
+                        Val::Range { id, .. } => {
+                            let (lo, hi) = st.ranges[id as usize];
+                            if lo == hi {
+                                path.push(lo as usize)
+                            } else {
+                                return PlaceRes::Unknown;
+                            }
+                        }
                         _ => return PlaceRes::Unknown,
                     }
                 }
@@ -787,7 +805,17 @@ impl<'tcx> Interp<'tcx> {
 
     fn eval_operand(&self, st: &State<'tcx>, op: &Operand<'tcx>) -> Val {
         match op {
-            Operand::Copy(p) | Operand::Move(p) => self.read_place(st, p),
+            Operand::Copy(p) | Operand::Move(p) => match self.read_place(st, p) {
+                Val::Range { id, w, .. } => {
+                    let (lo, hi) = st.ranges[id as usize];
+                    if lo == hi {
+                        Val::Int { signed: false, bits: from_const(lo, w as usize) }
+                    } else {
+                        Val::Range { id, lo, hi, w }
+                    }
+                }
+                v => v,
+            },
             Operand::Constant(c) => {
                 let fr = st.frames.last().unwrap();
                 self.eval_const(fr.inst, &c.const_)
@@ -805,7 +833,7 @@ impl<'tcx> Interp<'tcx> {
     fn as_int(&self, v: &Val) -> Option<(bool, Vec<Bit>)> {
         match v {
             Val::Int { signed, bits } => Some((*signed, bits.clone())),
-            Val::Range { lo, hi, w } if lo == hi => Some((false, from_const(*lo, *w as usize))),
+            Val::Range { lo, hi, w, .. } if lo == hi => Some((false, from_const(*lo, *w as usize))),
             _ => None,
         }
     }
@@ -902,6 +930,26 @@ impl<'tcx> Interp<'tcx> {
                     let e = Self::cmp_eq(a, b);
                     if e != Bit::T {
                         return bool_val(if matches!(op, Eq) { e } else { e.not() });
+                    }
+                }
+            }
+            // signed comparison against zero is a test of the sign bit
+            if signed {
+                if let (Some((_, a)), Some((_, b))) = (&la, &ra) {
+                    let top = |v: &Vec<Bit>| v[v.len() - 1];
+                    if const_of(b) == Some(0) {
+                        match op {
+                            Lt => return bool_val(top(a)),
+                            Ge => return bool_val(top(a).not()),
+                            _ => {}
+                        }
+                    }
+                    if const_of(a) == Some(0) {
+                        match op {
+                            Gt => return bool_val(top(b)),
+                            Le => return bool_val(top(b).not()),
+                            _ => {}
+                        }
                     }
                 }
             }
@@ -1079,6 +1127,47 @@ impl<'tcx> Interp<'tcx> {
         }
     }
 
+    /// little-endian reinterpretation between integers and byte arrays (what to_le_bytes / from_le_bytes
+    /// compile to on this target), and between integers of one width
+    fn transmute(&self, v: &Val, to: Ty<'tcx>) -> Val {
+        let flat: Option<Vec<Bit>> = match v {
+            Val::Int { bits, .. } if bits.len() % 8 == 0 => Some(bits.clone()),
+            Val::Array(items) => {
+                let mut out = Vec::new();
+                let mut ok = true;
+                for it in items.iter() {
+                    match it {
+                        Val::Int { bits, .. } if bits.len() == 8 => out.extend(bits.iter().copied()),
+                        _ => ok = false,
+                    }
+                }
+                if ok {
+                    Some(out)
+                } else {
+                    None
+                }
+            }
+            _ => None,
+        };
+        let Some(flat) = flat else { return self.top_of(to, 0) };
+        if let Some((w, s)) = int_width(to) {
+            if w == flat.len() && !matches!(to.kind(), ty::Bool | ty::Char) {
+                return Val::Int { signed: s, bits: flat };
+            }
+            return self.top_of(to, 0);
+        }
+        if let ty::Array(el, len) = to.kind() {
+            if let (Some((8, es)), Some(n)) = (int_width(*el), len.try_to_target_usize(self.tcx)) {
+                if n as usize * 8 == flat.len() {
+                    return Val::Array(
+                        (0..n as usize).map(|i| Val::Int { signed: es, bits: flat[i * 8..i * 8 + 8].to_vec() }).collect(),
+                    );
+                }
+            }
+        }
+        self.top_of(to, 0)
+    }
+
     fn cast_int(&self, v: &Val, to: Ty<'tcx>) -> Val {
         let Some((tw, ts)) = int_width(to) else { return self.top_of(to, 0) };
         let Some((ss, bits)) = self.as_int(v) else { return Val::Int { signed: ts, bits: top_bits(tw) } };
@@ -1111,7 +1200,37 @@ impl<'tcx> Interp<'tcx> {
                 let l = self.eval_operand(st, &ops.0);
                 let r = self.eval_operand(st, &ops.1);
                 let lty = self.mono(inst, ops.0.ty(&body.local_decls, self.tcx));
-                self.binop(*op, &l, &r, lty)
+                let res = self.binop(*op, &l, &r, lty);
+                // an interval compared with a constant it straddles: name the predicate so that the branch
+                // consuming it can split the interval exactly
+                if let Val::Int { bits, .. } = &res {
+                    if bits.len() == 1 && bits[0] == Bit::T {
+                        let cst = |v: &Val| match v {
+                            Val::Int { bits, .. } => const_of(bits),
+                            _ => None,
+                        };
+                        // normalise to "range < c", possibly negated
+                        let form: Option<(u32, u128, bool)> = match (&l, &r, op) {
+                            (Val::Range { id, .. }, k, BinOp::Lt) => cst(k).map(|c| (*id, c, false)),
+                            (Val::Range { id, .. }, k, BinOp::Le) => cst(k).and_then(|c| c.checked_add(1)).map(|c| (*id, c, false)),
+                            (Val::Range { id, .. }, k, BinOp::Gt) => cst(k).and_then(|c| c.checked_add(1)).map(|c| (*id, c, true)),
+                            (Val::Range { id, .. }, k, BinOp::Ge) => cst(k).map(|c| (*id, c, true)),
+                            (k, Val::Range { id, .. }, BinOp::Lt) => cst(k).and_then(|c| c.checked_add(1)).map(|c| (*id, c, true)),
+                            (k, Val::Range { id, .. }, BinOp::Le) => cst(k).map(|c| (*id, c, true)),
+                            (k, Val::Range { id, .. }, BinOp::Gt) => cst(k).map(|c| (*id, c, false)),
+                            (k, Val::Range { id, .. }, BinOp::Ge) => cst(k).and_then(|c| c.checked_add(1)).map(|c| (*id, c, false)),
+                            _ => None,
+                        };
+                        if let Some((rid, c, neg)) = form {
+                            let sym = Self::sym(st, &format!("pred:r{}<{}", rid, c));
+                            if !st.preds.iter().any(|p| p.0 == sym) {
+                                st.preds.push((sym, rid, c));
+                            }
+                            return bool_val(Bit::S(sym, 0, neg));
+                        }
+                    }
+                }
+                res
             }
             Rvalue::UnaryOp(op, o) => {
                 let v = self.eval_operand(st, o);
@@ -1133,6 +1252,7 @@ impl<'tcx> Interp<'tcx> {
                 match kind {
                     CastKind::IntToInt => self.cast_int(&v, to),
                     CastKind::PointerCoercion(..) | CastKind::PtrToPtr => v,
+                    CastKind::Transmute => self.transmute(&v, to),
                     _ => self.top_of(to, 0),
                 }
             }
@@ -1218,6 +1338,7 @@ impl<'tcx> Interp<'tcx> {
             .map(|(n, c)| format!("{}:{}", esc(n), self.render(st, &st.cells[*c], 0)))
             .collect();
         items.push(("cells", format!("{{{}}}", cells.join(","))));
+        items.push(("imp", if st.imprecise { "1".into() } else { "0".into() }));
         items.push(("conds", arr(&st.conds)));
         items.push(("calls", arr(&st.calls)));
         items.push(("mf", arr(&st.mayfail)));
@@ -1374,7 +1495,7 @@ impl<'tcx> Interp<'tcx> {
             (Val::Ref(p, q), Val::Ref(r, s)) if p == r && q == s => a.clone(),
             (Val::Str(p), Val::Str(q)) if p == q => a.clone(),
             (Val::Opaque(p), Val::Opaque(q)) if p == q => a.clone(),
-            (Val::Range { lo, hi, w }, Val::Range { lo: l2, hi: h2, w: w2 }) if lo == l2 && hi == h2 && w == w2 => a.clone(),
+            (Val::Range { id, lo, hi, w }, Val::Range { id: i2, lo: l2, hi: h2, w: w2 }) if id == i2 && lo == l2 && hi == h2 && w == w2 => a.clone(),
             _ => Val::Top,
         }
     }
@@ -1400,7 +1521,44 @@ impl<'tcx> Interp<'tcx> {
         out.cells = on.cells.iter().zip(off.cells.iter()).map(|(p, q)| Self::merge_val(p, q, c)).collect();
         out.assume = base.assume.clone();
         out.conds = base.conds.clone();
+        out.imprecise = on.imprecise || off.imprecise;
         Some(out)
+    }
+
+    /// record that bit `b` has value `val` on this path; refine the interval behind a predicate bit.
+    /// Returns false if that makes the path infeasible.
+    fn apply_assume(st: &mut State<'tcx>, b: Bit, val: bool) -> bool {
+        if let Bit::S(s, k, n) = b {
+            let truth = val != n; // value of the un-negated symbol
+            if let Some(p) = st.preds.iter().find(|p| p.0 == s).copied() {
+                let (lo, hi) = st.ranges[p.1 as usize];
+                let (nlo, nhi) = if truth {
+                    if p.2 == 0 {
+                        return false;
+                    }
+                    (lo, hi.min(p.2 - 1))
+                } else {
+                    (lo.max(p.2), hi)
+                };
+                if nlo > nhi {
+                    return false;
+                }
+                st.ranges[p.1 as usize] = (nlo, nhi);
+            }
+            st.assume.push(((s, k), truth));
+        }
+        true
+    }
+
+    fn pred_name(st: &State<'tcx>, b: Bit) -> String {
+        match b {
+            Bit::S(s, _, n) => format!("{}{}", if n { "!" } else { "" }, st.syms[s as usize].replace("pred:r0", "index")),
+            _ => "?".into(),
+        }
+    }
+
+    fn is_pred(st: &State<'tcx>, b: Bit) -> bool {
+        matches!(b, Bit::S(s, _, _) if st.preds.iter().any(|p| p.0 == s))
     }
 
     fn goto(st: &mut State<'tcx>, t: BasicBlock) {
@@ -1495,12 +1653,28 @@ impl<'tcx> Interp<'tcx> {
                 if bit == want {
                     // decided true
                 } else if bit.is_const() {
-                    self.finish(st, "panic", vec![("why", esc("assert")), ("what", esc(&site)), ("und", "0".into())]);
+                    let und = if st.imprecise { "1" } else { "0" };
+                    self.finish(st, "panic", vec![("why", esc("assert")), ("what", esc(&site)), ("und", und.into())]);
                     return Step::End;
+                } else if Self::is_pred(st, bit) {
+                    // an interval straddling the bound: split it; both sides are decided facts about their part
+                    let mut fail = st.clone();
+                    if Self::apply_assume(&mut fail, bit, !*expected) {
+                        fail.conds.push(obj(&[("pred", esc(&Self::pred_name(st, bit))), ("is", (!*expected).to_string())]));
+                        let und = if fail.imprecise { "1" } else { "0" };
+                        self.finish(&fail, "panic", vec![("why", esc("assert")), ("what", esc(&site)), ("und", und.into())]);
+                    }
+                    if !Self::apply_assume(st, bit, *expected) {
+                        return Step::End;
+                    }
+                    st.conds.push(obj(&[("pred", esc(&Self::pred_name(st, bit))), ("is", expected.to_string())]));
                 } else {
                     // undecided: both outcomes are possible as far as the analysis knows
                     self.finish(st, "panic", vec![("why", esc("assert")), ("what", esc(&site)), ("und", "1".into())]);
                     st.mayfail.push(esc(&site));
+                    if bit == Bit::T {
+                        st.imprecise = true;
+                    }
                     if let Bit::S(s, k, n) = bit {
                         st.assume.push(((s, k), *expected != n));
                     }
@@ -1520,6 +1694,7 @@ impl<'tcx> Interp<'tcx> {
                         let mut forks = Vec::new();
                         for (label, t) in succ.into_iter() {
                             let mut s2 = st.clone();
+                            s2.imprecise = true;
                             s2.conds.push(obj(&[("sw", rendered.clone()), ("case", esc(&label))]));
                             Self::goto(&mut s2, t);
                             forks.push(s2);
@@ -1533,7 +1708,7 @@ impl<'tcx> Interp<'tcx> {
                     return Step::Cont;
                 }
                 // a two-way branch on one symbolic bit: try to execute both arms and merge at the join
-                if bits.len() == 1 {
+                if bits.len() == 1 && !Self::is_pred(st, bits[0]) {
                     if let Bit::S(s, k, n) = bits[0] {
                         let t_on = targets.target_for_value(1);
                         let t_off = targets.target_for_value(0);
@@ -1597,29 +1772,31 @@ impl<'tcx> Interp<'tcx> {
                         ]));
                     }
                 }
+                let has_top = bits.iter().any(|b| *b == Bit::T);
                 let mut forks = Vec::new();
                 for (v, t) in listed.iter() {
                     let mut s2 = st.clone();
+                    s2.imprecise |= has_top;
                     s2.conds.push(obj(&[("sw", rendered.clone()), ("eq", esc(&v.to_string()))]));
-                    if bits.len() == 1 {
-                        if let Bit::S(s, k, n) = bits[0] {
-                            s2.assume.push(((s, k), (*v == 1) != n));
-                        }
+                    if bits.len() == 1 && !Self::apply_assume(&mut s2, bits[0], *v == 1) {
+                        continue;
                     }
                     Self::goto(&mut s2, *t);
                     forks.push(s2);
                 }
                 if otherwise_reachable {
                     let mut s2 = st.clone();
+                    s2.imprecise |= has_top;
                     let ne: Vec<String> = listed.iter().map(|(v, _)| esc(&v.to_string())).collect();
                     s2.conds.push(obj(&[("sw", rendered.clone()), ("ne", arr(&ne))]));
+                    let mut feasible = true;
                     if bits.len() == 1 && listed.len() == 1 {
-                        if let Bit::S(s, k, n) = bits[0] {
-                            s2.assume.push(((s, k), (listed[0].0 != 1) != n));
-                        }
+                        feasible = Self::apply_assume(&mut s2, bits[0], listed[0].0 != 1);
                     }
-                    Self::goto(&mut s2, targets.otherwise());
-                    forks.push(s2);
+                    if feasible {
+                        Self::goto(&mut s2, targets.otherwise());
+                        forks.push(s2);
+                    }
                 }
                 Step::Fork(forks)
             }
@@ -1641,10 +1818,11 @@ impl<'tcx> Interp<'tcx> {
                 let depth = st.frames.len();
                 let rendered_args: Vec<String> = argv.iter().map(|a| self.render(st, a, 0)).collect();
                 if target.is_none() {
+                    let und = if st.imprecise { "1" } else { "0" };
                     self.finish(
                         st,
                         "panic",
-                        vec![("why", esc("call")), ("what", esc(&callee_name)), ("args", arr(&rendered_args)), ("und", "0".into())],
+                        vec![("why", esc("call")), ("what", esc(&callee_name)), ("args", arr(&rendered_args)), ("und", und.into())],
                     );
                     return Step::End;
                 }
